@@ -6,6 +6,7 @@ import (
 	"container/list"
 	"encoding/json"
 	"fmt"
+	"github.com/redis/rueidis/internal/cmds"
 	"strings"
 	"testing"
 	"time"
@@ -18,7 +19,7 @@ import (
 // recency list (key, cmd, pending?, size class, expired?) plus the accounted size.
 
 type c10op struct {
-	Kind string `json:"k"` // flight | updS | updL | cancel | del | flush | tick
+	Kind string `json:"k"` // flight | flights | updS | updL | cancel | del | flush | tick
 	Key  string `json:"key,omitempty"`
 	Cmd  string `json:"cmd,omitempty"`
 }
@@ -83,6 +84,11 @@ func (m *c10model) apply(op c10op, now int64) {
 			m.ents = append(m.ents[:i:i], m.ents[i+1:]...) // expired: dropped and refetched
 		}
 		m.ents = append(m.ents, c10ent{key: op.Key, cmd: op.Cmd, pending: true, expAt: now + c10ttl.Milliseconds()})
+	case "flights":
+		// the batch look-up (DoMultiCache): the same rule for every command of the batch, in batch order
+		for _, cm := range c10batch(op.Key) {
+			m.apply(c10op{Kind: "flight", Key: op.Key, Cmd: cm}, now)
+		}
 	case "updS", "updL":
 		i := m.find(op.Key, op.Cmd)
 		if i < 0 {
@@ -115,8 +121,22 @@ func (m *c10model) apply(op c10op, now int64) {
 	}
 }
 
+// c10batch: the commands of the batch look-up for a key (key c has one cacheable command in the alphabet)
+func c10batch(key string) []string {
+	if key == "c" {
+		return []string{"G"}
+	}
+	return []string{"G", "T"}
+}
+
 func c10applyReal(c *lru, op c10op, now time.Time) {
 	switch op.Kind {
+	case "flights":
+		var multi []CacheableTTL
+		for _, cm := range c10batch(op.Key) {
+			multi = append(multi, CT(Cacheable(cmds.NewCompleted([]string{cm, op.Key})), c10ttl))
+		}
+		c.Flights(now, multi, make([]RedisResult, len(multi)), map[int]CacheEntry{})
 	case "flight":
 		c.Flight(op.Key, op.Cmd, c10ttl, now)
 	case "updS":
@@ -198,7 +218,7 @@ func c10run(r *vrun.Run, hist []c10op, max int, checkFrom int) (string, bool) {
 
 func TestVerif_C10(t *testing.T) {
 	vrun.Main(t, "C10", func(r *vrun.Run) {
-		r.Rule = "breadth-first search over operation histories on a real lru (Flight/Update small|large/Cancel/Delete key/Delete all/clock tick over keys {a,b,c} x cmds {G,T}); state = canonical recency list + accounted size, deduplicated; every transition replays the history on a fresh store and compares with a reference LRU model; non-trivial = state holding a completed entry"
+		r.Rule = "breadth-first search over operation histories on a real lru (Flight/Flights (batch look-up of a key's commands)/Update small|large/Cancel/Delete key/Delete all/clock tick over keys {a,b,c} x cmds {G,T}); state = canonical recency list + accounted size, deduplicated; every transition replays the history on a fresh store and compares with a reference LRU model; non-trivial = state holding a completed entry"
 		max := 3*c10size("a", "G", false) + 8 // room for three small entries; one large entry alone exceeds it
 		if raw, ok := r.ReplayPayload(); ok {
 			var hist []c10op
@@ -219,7 +239,7 @@ func TestVerif_C10(t *testing.T) {
 					alphabet = append(alphabet, c10op{Kind: kind, Key: k, Cmd: cm})
 				}
 			}
-			alphabet = append(alphabet, c10op{Kind: "del", Key: k})
+			alphabet = append(alphabet, c10op{Kind: "del", Key: k}, c10op{Kind: "flights", Key: k})
 		}
 		alphabet = append(alphabet, c10op{Kind: "flush"}, c10op{Kind: "tick"})
 		depth := vrun.Pick(r, 6, 12)
